@@ -822,6 +822,35 @@ def install_more(models):
                 lo += 1
         return StrSlice(sl.s, lo, hi)
 
+    @R(r"^core::str::<impl str>::(find|rfind|contains|starts_with|ends_with)::<(fn\(char\) -> bool.*|\{closure@.*\}|\[closure@.*\]|F)>$")
+    def _find_pred(ex, c, a):
+        """str::find(|c| pred(c)) and friends with a function / closure predicate on chars"""
+        sl = as_slice(a[0]); pred = a[1]
+        fm = re.search(r"\{(char::methods::<impl char>::\w+)\}", c)
+
+        def holds(ch):
+            if fm:
+                r = ex.call(fm.group(1), [ch])
+            else:
+                r = ex.call_closure(pred, [ch])
+            if isinstance(r, SB):
+                return ex.branch_bool(r)
+            if isinstance(r, SV):
+                return ex.branch_bool(SB(r.e != 0))
+            return bool(r)
+        m = re.search(r"::(find|rfind|contains|starts_with|ends_with)::<", c).group(1)
+        idx = range(sl.lo, sl.hi)
+        if m == "rfind":
+            idx = range(sl.hi - 1, sl.lo - 1, -1)
+        if m == "starts_with":
+            return sl.hi > sl.lo and holds(sl.s.chars[sl.lo])
+        if m == "ends_with":
+            return sl.hi > sl.lo and holds(sl.s.chars[sl.hi - 1])
+        for k in idx:
+            if holds(sl.s.chars[k]):
+                return True if m == "contains" else opt(span_len(sl.s, sl.lo, k))
+        return False if m == "contains" else opt(None)
+
     @R(r"^Option::<&str>::is_some_and::<.*>$")
     def _is_some_and(ex, c, a):
         o = deref(a[0])
